@@ -297,6 +297,13 @@ def random_doc(rng, vocab):
             lines.append("  " + tmpl % (x, joined, ' text="l"' if rng.random() < 0.5 else ""))
         else:
             lines.append("  " + tmpl % (x, joined))
+    if rng.random() < 0.25:
+        # an inner <svg> (an inset with its own viewport) among the elements: what follows it is still part of the document
+        inner_cls = rng.sample(classes, rng.randint(1, min(2, len(classes))))
+        used += inner_cls
+        # (never first: a leading <svg> followed by siblings would be an ambiguous 'root')
+        lines.insert(rng.randint(1, max(1, len(lines) - 1)),
+                     '  <svg x="70" y="0" width="20" height="10" viewBox="0 0 40 20"><circle cx="20" cy="10" r="8" class="%s"/></svg>' % " ".join(inner_cls))
     author_styles = author_defs = 0
     if rng.random() < 0.4:
         lines.insert(rng.randint(0, len(lines)), "  <style>%s</style>" % AUTHOR_STYLE)
